@@ -357,6 +357,9 @@ public:
         if (mat.rows() != mat.cols())
             throw std::invalid_argument("UpperHessenbergSchur: matrix must be square");
 
+        // Results of an earlier call are no longer valid
+        m_computed = false;
+
         m_n = mat.rows();
         m_T.resize(m_n, m_n);
         m_U.resize(m_n, m_n);
